@@ -1,6 +1,7 @@
 /- The stateful model as one transition function over API-level operations. -/
 import Fosite.Model.Authorize
 import Fosite.Model.Introspect
+import Fosite.Model.PAR
 namespace Fosite.Model
 
 structure MState where
@@ -19,6 +20,13 @@ inductive Op
   | refresh (q : RefreshReq)
   | revoke (q : RevokeReq)
   | introspect (q : IntrospectReq)
+  | clientCredentials (q : DirectReq)
+  | password (q : DirectReq)
+  | deviceAuthorize (q : DeviceAuthReq)
+  | deviceDecide (sig : Nat) (accept : Bool) (grantScopes grantAud : List String) (subject : String)
+  | devicePoll (q : DevicePollReq)
+  | parPush (p : ParPushReq)
+  | authorizePar (a : AuthzParReq)
   deriving Inhabited
 
 def setClientList (cs : List Client) (c : Client) : List Client :=
@@ -31,6 +39,12 @@ def Op.prog (s : MState) : Op → Option (Prog Out)
   | .refresh q => some (refreshProg s.cfg s.now q)
   | .revoke q => some (revokeProg q)
   | .introspect q => some (introspectProg s.cfg s.now q)
+  | .clientCredentials q => some (clientCredentialsProg s.cfg s.now q)
+  | .password q => some (passwordProg s.cfg s.now q)
+  | .deviceAuthorize q => some (deviceAuthProg s.cfg s.now q)
+  | .devicePoll q => some (devicePollProg s.cfg s.now q)
+  | .parPush p => some (parPushProg s.cfg s.now p)
+  | .authorizePar a => some (authorizeParProg s.cfg s.now s.minNonce a)
   | _ => none
 
 def step (s : MState) (op : Op) : MState × Out × List (Call × Res) :=
@@ -38,6 +52,20 @@ def step (s : MState) (op : Op) : MState × Out × List (Call × Res) :=
   | .setCfg c => ({ s with cfg := c }, .ok, [])
   | .setClient c => ({ s with ss := { s.ss with clients := setClientList s.ss.clients c } }, .ok, [])
   | .advance d => ({ s with now := s.now + d }, .ok, [])
+  | .deviceDecide sig accept gs ga sub =>
+    -- the consent application decides the user code: it updates the stored device request and,
+    -- for OpenID Connect grants, stores the OIDC session under the device-code signature
+    match alookup s.ss.store.device sig with
+    | none => (s, .ok, [])
+    | some d =>
+      let d' : DevRec := if accept then
+          { d with state := 1, req := { d.req with grantedScopes := appendAllUniq [] gs, grantedAud := appendAllUniq [] ga,
+                                                   sess := { d.req.sess with subject := sub, idSubject := sub } } }
+        else { d with state := 2 }
+      let store' := { s.ss.store with
+        device := aset s.ss.store.device sig d',
+        oidc := if accept && gs.contains "openid" then aset s.ss.store.oidc sig d'.req else s.ss.store.oidc }
+      ({ s with ss := { s.ss with store := store' } }, .ok, [])
   | op =>
     match op.prog s with
     | some p => let (ss', out, log) := runSeq s.ss p; ({ s with ss := ss' }, out, log)
